@@ -12,6 +12,11 @@ open Gen
 /-- compile-time configuration of the library build -/
 structure Cfg where
   slack : Bool := true      -- SAFECLIB_STR_NULL_SLACK
+  /- repairs that landed after the models and their theorems were written are carried as switches, `true` = the current tree
+     (the driver always runs with the defaults); theorems quantify over every `cfg`, witnesses of a repaired defect name the
+     switch they turn off -/
+  fixStpUnterm : Bool := true   -- e5bca6e: stpcpy_s / stpncpy_s clear dest on the "src unterminated" exit
+  fixInnerBos : Bool := true    -- abc5a20, 913acf6: getenv_s / strerror_s hand destbos on to their closing strcpy_s
   deriving Repr, DecidableEq, Inhabited
 
 /-- `__builtin_object_size` as handed to a `_chk` entry point: `none` = BOS_UNKNOWN -/
